@@ -4,7 +4,7 @@
 (*   Conf_*        : recorded outcome = outcome of the guards as transcribed in the spec (never an alarm) *)
 (* Node kinds (field a): Catalogue, State, Own, Priv, Kill, Ctl, Hook. A cell's args are the cell exactly  *)
 (* as MC_Matrix printed it plus `ref` = id of the node that shows the same message succeeding without the  *)
-(* guard under test (owner signs / no sender guard / all controls off) in the same prepared state.         *)
+(* guard under test (owner signs / designated contract on comdex-1 / all controls off) in the same state.  *)
 EXTENDS Auth, Controls, TLC, Json
 CONSTANT LogFile
 Log  == ndJsonDeserialize(LogFile)
@@ -89,7 +89,7 @@ OwnSignerKeyed(nd) == nd.a = "Own" /\ nd.args.signer # "owner" /\ Row(nd.args.ms
 OwnOwnerOk(nd)   == nd.a = "Own" /\ nd.args.signer = "owner" /\ nd.res.ok /\ ~Same(nd)
 PrivGuarded(nd)  == nd.a = "Priv" /\ nd.args.chain \in MainTest /\ RefOk(nd)
 PrivAccepted(nd) == nd.a = "Priv" /\ nd.args.chain \in MainTest /\ nd.res.ok /\ ~Same(nd)
-PrivElse(nd)     == nd.a = "Priv" /\ nd.args.chain \notin MainTest
+PrivElse(nd)     == nd.a = "Priv" /\ nd.args.chain \notin MainTest /\ nd.args.sender # "admin" /\ RefOk(nd)
 KillRej(nd)      == nd.a = "Kill" /\ ~nd.res.ok
 KillAcc(nd)      == nd.a = "Kill" /\ nd.res.ok
 CtlBreaker(nd)   == nd.a = "Ctl" /\ BreakerReq(RowOfN(nd), CtlOfN(nd)) /\ RefOk(nd)
